@@ -149,6 +149,14 @@ def readsOther (params : List Name) (args : List Expr) : Bool :=
     | some (.var x) => (List.range params.length).any fun j => i != j && params[j]? == some x
     | _ => false
 
+/-- `lir_lowering.rs`, `mir::Statement::While` (fix c8954cc): when a loop value is another loop
+variable, every loop value is first copied by a `Cast` into a fresh temporary (appended to the loop
+body) and the loop variables read the temporaries; otherwise the loop values are used as they are.
+Result: the appended casts and the loop values the backends then assign one after the other. -/
+def lowerLoopUpdate (names : List Name) (args : List Expr) (temps : List Name) :
+    List (Name × Expr) × List Expr :=
+  if readsOther names args then (temps.zip args, temps.map Expr.var) else ([], args)
+
 /-- The rewritten function as the backends run it (`seq = true`), or with all loop values read
 before any loop variable is written (`seq = false`, what the recursion means). -/
 def runLoop (ev : Op → Int → Int → Option Int) (seq : Bool) (params : List Name) (l : LBody) :
